@@ -24,15 +24,34 @@ fn header() -> String {
 }
 
 fn call(form: usize, callee: &str) -> String {
-    match form % 7 {
+    match form % 10 {
         0 => format!("    acc = acc + {callee}(acc);\n"),
         1 => format!("    let t_{form} = {callee}(acc);\n    acc = acc + t_{form};\n"),
         2 => format!("    if ({callee}(acc) > 0.5) {{ acc = acc + 1.0; }}\n"),
         3 => format!("    for (var i = 0; i < 2; i++) {{ acc = max(acc, {callee}(acc)); }}\n"),
         4 => format!("    switch (i32(acc)) {{ case 1: {{ acc = {callee}(acc); }} default: {{ acc = acc * {callee}(1.0); }} }}\n"),
         5 => format!("    loop {{ acc = acc + 1.0; if (acc > 9.0) {{ break; }} continuing {{ acc = acc + {callee}(acc); }} }}\n"),
-        _ => format!("    {callee}(acc);\n"),
+        6 => format!("    {callee}(acc);\n"),
+        // the same callee in both arms of an if / else
+        7 => format!("    if (acc > 0.5) {{ acc = {callee}(acc); }} else {{ acc = acc - {callee}(1.0); }}\n"),
+        // ... in an else-if ladder
+        8 => format!("    if (acc > 3.0) {{ acc = {callee}(acc); }} else if (acc > 2.0) {{ acc = {callee}(2.0); }} else {{ acc = {callee}(3.0) + 1.0; }}\n"),
+        // ... in a nested block of one arm and a loop in the other
+        _ => format!("    if (acc > 0.5) {{ {{ if (acc > 0.7) {{ acc = {callee}(acc); }} }} }} else {{ loop {{ acc = {callee}(acc); break; }} }}\n"),
     }
+}
+
+/// f_i calls f_{i-1} through the *same* call form at every level (a cost that doubles per level for
+/// one form only stays invisible when the forms rotate)
+pub fn chain_uniform(depth: usize, form: usize) -> Case {
+    let mut s = header();
+    s.push_str("fn f_0(x: f32) -> f32 { return x + data[0]; }\n");
+    for i in 1..=depth {
+        let body = call(form, &format!("f_{}", i - 1));
+        writeln!(s, "fn f_{i}(x: f32) -> f32 {{\n    var acc: f32 = x;\n{body}    return acc;\n}}").unwrap();
+    }
+    writeln!(s, "@compute @workgroup_size(1)\nfn main() {{\n    var acc: f32 = 1.0;\n    acc = acc + f_{depth}(acc);\n    data[0] = acc;\n}}").unwrap();
+    Case { family: format!("chain_uniform(depth={depth},form={form})"), items: depth + 1, depth, wgsl: s }
 }
 
 /// f_0 touches the buffer; f_i calls f_{i-1} `fanin` times, with call forms rotating from `form0`.
@@ -201,8 +220,8 @@ pub fn random_dag(ch: &mut Ch) -> Case {
                 if is_void[callee] {
                     writeln!(body, "    g_{callee}(acc);").unwrap();
                 } else {
-                    let form = ch.below(7) as usize;
-                    body.push_str(&call(form * 8 + c, &format!("g_{callee}")).replace(&format!("t_{}", form * 8 + c), &format!("t{c}")));
+                    let form = ch.below(10) as usize;
+                    body.push_str(&call(form * 11 + c, &format!("g_{callee}")).replace(&format!("t_{}", form * 11 + c), &format!("t{c}")));
                 }
             }
         }
@@ -231,6 +250,11 @@ pub fn family_members(tier: Tier) -> Vec<Case> {
         v.push(chain(d, 1, 2, 3));
         v.push(chain(d, 2, 1, 0));
         v.push(chain(d, 2, 6, 4));
+    }
+    for form in 0..10 {
+        for d in [16usize, 48] {
+            v.push(chain_uniform(d, form));
+        }
     }
     for d in [8usize, 16, 32, 64] {
         v.push(shared(chain(d, 1, 0, 0), &format!("acc = acc + f_{d}(acc);")));
